@@ -5,6 +5,7 @@ import (
 	"math/rand"
 	"os"
 	"path/filepath"
+	"sort"
 	"strings"
 	"time"
 
@@ -327,43 +328,7 @@ func init() {
 			c.R.Evaluations++
 			switch it % 4 {
 			case 0, 1: // DSL
-				in := mutate(rng, dsl[rng.Intn(len(dsl))])
-				var err1 error
-				var m1 *openfgav1.AuthorizationModel
-				p, el, to := timed(c08Limit, func() { m1, err1 = transformer.TransformDSLToProto(in) })
-				if c08Report(c, "TransformDSLToProto", in, p, el, to) {
-					continue
-				}
-				p, el, to = timed(c08Limit, func() { _, _ = transformer.TransformDSLToJSON(in) })
-				c08Report(c, "TransformDSLToJSON", in, p, el, to)
-				p, el, to = timed(c08Limit, func() { _, _, _ = transformer.TransformModularDSLToProto(in) })
-				c08Report(c, "TransformModularDSLToProto", in, p, el, to)
-				other := dsl[rng.Intn(len(dsl))]
-				p, el, to = timed(c08Limit, func() {
-					_, _ = transformer.TransformModuleFilesToModel([]transformer.ModuleFile{{Name: "a.fga", Contents: in}, {Name: "b.fga", Contents: other}}, "1.2")
-				})
-				c08Report(c, "TransformModuleFilesToModel", in+"\n----\n"+other, p, el, to)
-				// a syntax error is always reported through the returned error
-				cleaned := harnessClean(in)
-				var antlrErrs []synErr
-				p, _, to = timed(c08Limit, func() { _, _, antlrErrs = parseTree(cleaned) })
-				if p == "" && !to {
-					if len(antlrErrs) > 0 {
-						c.Nontrivial(in)
-						c.Dist("inputs_with_syntax_errors")
-						if err1 == nil {
-							c.OracleFail("c08:error-reporting", map[string]any{"input": in, "antlr_error": antlrErrs[0].Msg}, "ANTLR reported a syntax error but the transform returned no error", "")
-						}
-					} else {
-						c.Dist("inputs_without_syntax_errors")
-					}
-					if len(in) < 3000 {
-						dslCorrScoped(c, "fuzz", in)
-					}
-				}
-				if err1 == nil && m1 != nil {
-					exerciseModel(c, m1, in)
-				}
+				c08ExerciseDSL(c, mutate(rng, dsl[rng.Intn(len(dsl))]), dsl[rng.Intn(len(dsl))], "fuzz")
 			case 2: // JSON
 				in := mutate(rng, jsn[rng.Intn(len(jsn))])
 				p, el, to := timed(c08Limit, func() { _, _ = transformer.TransformJSONStringToDSL(in) })
@@ -408,10 +373,175 @@ func init() {
 		}
 		// (c) scaling probe (search only; ANTLR timing depends on its caches, so only a persistent
 		// cubic signal above one second is reported, and the two known families are listed findings)
+		c08DeepNesting(c, rng)
 		c08Scaling(c)
 		c08ModelScaling(c)
 		c.Sample(map[string]any{"mutated_dsl": mutate(rand.New(rand.NewSource(1)), dsl[0])})
 	}
+}
+
+// c08ExerciseDSL sends one DSL text through every DSL entry point (and, when it is accepted, the
+// resulting model through printer, graph builders and utils).
+func c08ExerciseDSL(c *Ctx, in, other, stream string) {
+	var err1 error
+	var m1 *openfgav1.AuthorizationModel
+	p, el, to := timed(c08Limit, func() { m1, err1 = transformer.TransformDSLToProto(in) })
+	if c08Report(c, "TransformDSLToProto", in, p, el, to) {
+		return
+	}
+	p, el, to = timed(c08Limit, func() { _, _ = transformer.TransformDSLToJSON(in) })
+	c08Report(c, "TransformDSLToJSON", in, p, el, to)
+	p, el, to = timed(c08Limit, func() { _, _, _ = transformer.TransformModularDSLToProto(in) })
+	c08Report(c, "TransformModularDSLToProto", in, p, el, to)
+	p, el, to = timed(c08Limit, func() {
+		_, _ = transformer.TransformModuleFilesToModel([]transformer.ModuleFile{{Name: "a.fga", Contents: in}, {Name: "b.fga", Contents: other}}, "1.2")
+	})
+	c08Report(c, "TransformModuleFilesToModel", in+"\n----\n"+other, p, el, to)
+	// a syntax error is always reported through the returned error
+	cleaned := harnessClean(in)
+	var antlrErrs []synErr
+	p, _, to = timed(c08Limit, func() { _, _, antlrErrs = parseTree(cleaned) })
+	if p == "" && !to {
+		if len(antlrErrs) > 0 {
+			c.Nontrivial(in)
+			c.Dist("inputs_with_syntax_errors")
+			if err1 == nil {
+				c.OracleFail("c08:error-reporting", map[string]any{"input": in, "antlr_error": antlrErrs[0].Msg}, "ANTLR reported a syntax error but the transform returned no error", "")
+			}
+		} else {
+			c.Dist("inputs_without_syntax_errors")
+		}
+		if len(in) < 3000 {
+			dslCorrScoped(c, stream, in)
+		}
+	}
+	if err1 == nil && m1 != nil {
+		exerciseModel(c, m1, in)
+	}
+}
+
+// c08DeepNesting: rewrites nested to depths no fixture and no random generator reaches (limits, counters and
+// stacks in the listener, the printer and the graph builders only show beyond them), as DSL in several
+// nesting shapes and as protobuf values.
+func c08DeepNesting(c *Ctx, rng *rand.Rand) {
+	ops := []string{"or", "and", "but not"}
+	head := func(modular bool) string {
+		if modular {
+			return "module deep\n\ntype user\n\ntype doc\n  relations\n    define a: [user]\n    define b: [user]\n    define p: [doc]\n"
+		}
+		return "model\n  schema 1.1\n\ntype user\n\ntype doc\n  relations\n    define a: [user]\n    define b: [user]\n    define p: [doc]\n"
+	}
+	leaf := []string{"a", "b", "a from p"}
+	shapes := map[string]func(d int, op string) string{
+		// x op (x op (x op ( ... )))
+		"right": func(d int, op string) string {
+			s := leaf[d%3]
+			for i := 0; i < d; i++ {
+				s = leaf[i%3] + " " + op + " (" + s + ")"
+			}
+			return s
+		},
+		// (((x op y) op y) op y)
+		"left": func(d int, op string) string {
+			s := leaf[d%3]
+			for i := 0; i < d; i++ {
+				s = "(" + s + " " + op + " " + leaf[i%3] + ")"
+			}
+			return s + " " + op + " b"
+		},
+		// ((((x))))  redundant parentheses around the whole definition
+		"redundant": func(d int, op string) string {
+			return strings.Repeat("(", d) + "a " + op + " b" + strings.Repeat(")", d)
+		},
+		// x op ((((y)))) redundant parentheses behind an operator
+		"redundant-operand": func(d int, op string) string {
+			return "a " + op + " " + strings.Repeat("(", d) + "b" + strings.Repeat(")", d)
+		},
+		// [user] op (x op ([...] is not allowed deeper, so only the head is direct)
+		"direct-head": func(d int, op string) string {
+			s := "b"
+			for i := 0; i < d; i++ {
+				s = "a " + ops[i%2] + " (" + s + ")"
+			}
+			return "[user] " + op + " (" + s + ")"
+		},
+		// alternating operators on the way down
+		"alternating": func(d int, op string) string {
+			s := "a"
+			for i := 0; i < d; i++ {
+				s = "(" + s + ") " + ops[i%3] + " (" + leaf[i%3] + ")"
+				if i+1 < d {
+					s = "(" + s + ")"
+				}
+			}
+			return s
+		},
+	}
+	depths := []int{1, 2, 3, 5, 8, 12, 16, 20, 24, 25, 26, 27, 31, 32, 33, 40, 48, 63, 64, 65}
+	if c.Thorough() {
+		depths = append(depths, 80, 100, 127, 128, 129, 160, 200)
+	}
+	names := make([]string, 0, len(shapes))
+	for k := range shapes {
+		names = append(names, k)
+	}
+	sort.Strings(names)
+	for _, d := range depths {
+		for _, sh := range names {
+			for oi, op := range ops {
+				if d > 40 && (oi+d)%3 != 0 {
+					continue // one operator per shape for the very deep ones
+				}
+				modular := (d+oi)%4 == 0
+				in := head(modular) + "    define deep: " + shapes[sh](d, op) + "\n"
+				c.R.Evaluations++
+				c.Dist("deep_nesting_dsl")
+				c08ExerciseDSL(c, in, head(true), "deep")
+			}
+		}
+	}
+	// protobuf side: the same depths through printer, plain and weighted graph builders and utils
+	mk := func(d int, kind int) *openfgav1.Userset {
+		var u *openfgav1.Userset = &openfgav1.Userset{Userset: &openfgav1.Userset_ComputedUserset{ComputedUserset: &openfgav1.ObjectRelation{Relation: "a"}}}
+		comp := func(r string) *openfgav1.Userset {
+			return &openfgav1.Userset{Userset: &openfgav1.Userset_ComputedUserset{ComputedUserset: &openfgav1.ObjectRelation{Relation: r}}}
+		}
+		for i := 0; i < d; i++ {
+			k := kind
+			if kind == 3 {
+				k = i % 3
+			}
+			switch k {
+			case 0:
+				u = &openfgav1.Userset{Userset: &openfgav1.Userset_Union{Union: &openfgav1.Usersets{Child: []*openfgav1.Userset{comp("b"), u}}}}
+			case 1:
+				u = &openfgav1.Userset{Userset: &openfgav1.Userset_Intersection{Intersection: &openfgav1.Usersets{Child: []*openfgav1.Userset{u, comp("b")}}}}
+			default:
+				u = &openfgav1.Userset{Userset: &openfgav1.Userset_Difference{Difference: &openfgav1.Difference{Base: u, Subtract: comp("b")}}}
+			}
+		}
+		return u
+	}
+	for _, d := range depths {
+		for kind := 0; kind < 4; kind++ {
+			direct := func() *openfgav1.Userset { return &openfgav1.Userset{Userset: &openfgav1.Userset_This{}} }
+			m := &openfgav1.AuthorizationModel{SchemaVersion: "1.1", TypeDefinitions: []*openfgav1.TypeDefinition{
+				{Type: "user"},
+				{Type: "doc", Relations: map[string]*openfgav1.Userset{"a": direct(), "b": direct(), "deep": mk(d, kind)},
+					Metadata: &openfgav1.Metadata{Relations: map[string]*openfgav1.RelationMetadata{
+						"a": {DirectlyRelatedUserTypes: []*openfgav1.RelationReference{{Type: "user"}}},
+						"b": {DirectlyRelatedUserTypes: []*openfgav1.RelationReference{{Type: "user"}}}}}},
+			}}
+			c.R.Evaluations++
+			c.Dist("deep_nesting_proto")
+			exerciseModel(c, m, fmt.Sprintf("deep proto: depth %d kind %d", d, kind))
+			// and the DSL the printer makes of it back through the parser
+			if dsl, err := transformer.TransformJSONProtoToDSL(m); err == nil {
+				c08ExerciseDSL(c, dsl, head(true), "deep")
+			}
+		}
+	}
+	_ = rng
 }
 
 func c08Scaling(c *Ctx) {
